@@ -19,3 +19,40 @@ def file_of_nested_repository_edited_from_outer_repository():
         return sorted({v["kind"] + "@" + v["path_class"] for v in viol}), viol[:1]
     finally:
         w.destroy()
+
+
+def cross_repo_report_with_dotdot_path_after_earlier_agent_report():
+    """D72 (fixed): <repo>/vendor/inner is an independent repository nested in <repo>. An agent first reports an edit of <repo>/a.txt
+    (hook started in <repo>). A later report, started in the inner repository, names ../../dir/b.txt (a file of the outer repository, by a
+    relative path) => exit 0 and "Cross-repo checkpoint ... completed", but dir/b.txt was not recorded in the outer repository (the
+    un-normalised name vendor/inner/../../dir/b.txt matched nothing once the working log already held an agent checkpoint)."""
+    import json
+    import os
+    from ..world import BIN, run
+    w = World(name="WC20b", mode="wrapper", init=True)
+    try:
+        lay = c20.build_layout(w, "nested")
+        main, inner = lay["main"], lay["nested"]
+
+        def report(cwd, names, conv, kind):
+            if kind == "pre":
+                pl = {"type": "human", "repo_working_dir": cwd, "will_edit_filepaths": names}
+            else:
+                pl = {"type": "ai_agent", "repo_working_dir": cwd, "edited_filepaths": names, "transcript": {"messages": [{"type": "user", "text": "x"}]},
+                      "agent_name": "tool", "model": "m", "conversation_id": conv}
+            return run([BIN, "checkpoint", "agent-v1", "--hook-input", json.dumps(pl)], cwd, w.env(), timeout=60)
+        a = os.path.join(main, "a.txt")
+        report(main, [a], "A", "pre"); open(a, "a").write("agent line 1\n"); report(main, [a], "A", "post")
+        b = os.path.join(main, "dir", "b.txt")
+        names = [os.path.relpath(b, inner)]
+        report(inner, names, "B", "pre"); open(b, "a").write("agent line 2\n"); pr = report(inner, names, "B", "post")
+        kinds = []
+        if pr.rc != 0:
+            kinds.append("C20/nonzero-exit")
+        if "dir/b.txt" not in c20.recorded_files(w, main):
+            kinds.append("C20/edited-file-not-recorded-in-its-repository@dotdot-cross-repo")
+        probs, _ = c20.scan_logs(w, lay)
+        kinds += sorted({p["kind"] for p in probs})
+        return kinds, dict(stderr=pr.stderr[-300:], recorded=sorted(c20.recorded_files(w, main)))
+    finally:
+        w.destroy()
